@@ -125,6 +125,54 @@ impl Prop for C17 {
             },
         ));
         f.push(Family::new(
+            "case-length-and-long-lines",
+            Mode::Full,
+            "(a) a word whose letters change their UTF-8 length when their case changes (İİ, ıı, İı, ß, ǅ, ŉ, ΐ) in front of '12 january 2020', '10:00 EST + 7', 'GMT 5', '12 DECEMBER 2020 + 3': the month name, zone name and every number are reported at their own character positions; (b) long lines '1 + 1 + ... + 3 km' with 60, 127, 128, 129, 200, 300 numbers (the unit word is retagged behind more than 127 / 255 other tokens), also with a variable use at the end: every number and operator keeps its token",
+            move |ch| {
+                let n = |s: &str| s.chars().count();
+                if ch.flag() {
+                    let w = *ch.pick(&["İİ", "ıı", "İı", "ß", "ǅ", "ŉ", "ΐ"]);
+                    let p = n(w) + 1;
+                    let (tail, must): (&str, Vec<(usize, usize, &str)>) = match ch.choose(4) {
+                        0 => ("12 january 2020", vec![(p, p + 2, "Number"), (p + 3, p + 10, "Month"), (p + 11, p + 15, "Number")]),
+                        1 => ("10:00 EST + 7", vec![(p + 6, p + 9, "Symbol1"), (p + 10, p + 11, "Operator"), (p + 12, p + 13, "Number")]),
+                        2 => ("GMT 5", vec![(p, p + 3, "Symbol1"), (p + 4, p + 5, "Number")]),
+                        _ => ("12 DECEMBER 2020 + 3", vec![(p, p + 2, "Number"), (p + 3, p + 11, "Month"), (p + 12, p + 16, "Number"), (p + 17, p + 18, "Operator"), (p + 19, p + 20, "Number")]),
+                    };
+                    let text = format!("{} {}", w, tail);
+                    let must = must.into_iter().map(|(a, b, k)| (a, b, k.to_string())).collect();
+                    Some(Case { seq: SeqCase { lang: "en".into(), text, now: None }, must, user_unit: false })
+                } else {
+                    let k = *ch.pick(&[60usize, 127, 128, 129, 200, 300]);
+                    let with_var = ch.flag();
+                    let mut text = String::new();
+                    let mut must = Vec::new();
+                    if with_var {
+                        text.push_str("v = 2\n");
+                    }
+                    let base = 0usize; // positions are per line: the long line is the last line
+                    let mut pos = base;
+                    for i in 0..k {
+                        must.push((pos, pos + 1, "Number".to_string()));
+                        text.push('1');
+                        pos += 1;
+                        if i + 1 < k || true {
+                            text.push_str(" + ");
+                            must.push((pos + 1, pos + 2, "Operator".to_string()));
+                            pos += 3;
+                        }
+                    }
+                    if with_var {
+                        text.push('v');
+                    } else {
+                        must.push((pos, pos + 1, "Number".to_string()));
+                        text.push_str("3 km");
+                    }
+                    Some(Case { seq: SeqCase { lang: "en".into(), text, now: None }, must, user_unit: false })
+                }
+            },
+        ));
+        f.push(Family::new(
             "glued-operators",
             Mode::Full,
             "number literals written directly onto '*', '/', '(' and ')' without blanks: 'A*B', 'A/B', '(A)', '2*(B)', 'ö *B # ₺' for A, B in [7, 12,5, 0x1F, 0XFF, 0xAF, 0x1aed, 0x2bbd, 0xCD, 0b101, 0o17, 1.000] (hex literals whose tail reads as digits plus a currency code included): each literal is one Number token covering exactly its characters",
@@ -259,7 +307,12 @@ impl Prop for C17 {
                     for m in c.must.iter() {
                         // "Number~": a Number token that starts exactly there and ends at the literal's
                         // end or one character later (a trailing separator may be swallowed)
-                        let present = if m.2 == "Number~" { o.ui[0].iter().any(|t| t.2 == "Number" && t.0 == m.0 && (t.1 == m.1 || t.1 == m.1 + 1)) } else { o.ui[0].iter().any(|t| t == m) };
+                        // (the tagged line is the last line of the text)
+                        let line_ui = match o.ui.last() {
+                            Some(u) => u,
+                            None => break,
+                        };
+                        let present = if m.2 == "Number~" { line_ui.iter().any(|t| t.2 == "Number" && t.0 == m.0 && (t.1 == m.1 || t.1 == m.1 + 1)) } else { line_ui.iter().any(|t| t == m) };
                         if !present {
                             v.violation = Some(format!("expected token missing: {:?}", m));
                             return v;
